@@ -172,7 +172,7 @@ fn case_strategy(t: Tier) -> BoxedStrategy<Case> {
         proptest::option::weighted(0.6, (3u32..=max_k, prop_oneof![Just(-6i8), Just(-7i8), Just(-5i8), -8i8..=8])),
         proptest::collection::vec(any::<u8>(), 0..8),
         -8i8..=8,
-        0u8..3,
+        0u8..5,
         0u8..14,
         any::<u32>(),
         any::<u64>(),
@@ -234,6 +234,21 @@ fn check(ctx: &Ctx, c: &Case) -> PResult {
                 d.witnesses = 1000 * d.witnesses + 8;
                 "sparse witness labels"
             }
+            3 | 4 => {
+                // a huge DECLARED witness count over unchanged (small) labels:
+                // sparse labels are legitimate, and nothing the description
+                // merely declares may drive work or memory
+                d.witnesses = match (c.rebuilt, c.h1 % 4) {
+                    (3, 0) => 1 << 20,
+                    (3, 1) => 1 << 24,
+                    (3, _) => 1 << 27,
+                    (_, 0) => 1 << 40,
+                    (_, 1) => 1 << 61,
+                    (_, 2) => (1 << 62) + 12345,
+                    _ => usize::MAX >> 1,
+                };
+                "huge declared witness count"
+            }
             _ => {
                 // reversed polynomial table
                 let np = d.polynomials.len();
@@ -244,7 +259,15 @@ fn check(ctx: &Ctx, c: &Case) -> PResult {
                 "reversed polynomial table"
             }
         };
-        let r = no_panic("compile-compressed-panic", || Compiler::compile_with_compressed(&pp, &c.label, &d.encode()))?;
+        let enc = d.encode();
+        let (r, peak3) = measure(|| no_panic("compile-compressed-panic", || Compiler::compile_with_compressed(&pp, &c.label, &enc)));
+        let r = r?;
+        ensure!(
+            peak3 <= 2 * legit + (1 << 20),
+            "decompression-allocation",
+            "hand-built description ({variant}, {} bytes) peaked at {peak3} bytes, legitimate maximum for this capacity {legit}",
+            enc.len()
+        );
         let (p3, v3) = r.map_err(|e| Fail::new("handbuilt-description-refused", format!("{variant}: {e:?}")))?;
         if let Ok((p1, v1)) = &direct {
             ensure!(p1.to_bytes() == p3.to_bytes() && v1.to_bytes() == v3.to_bytes(), "handbuilt-description-different-keys", "{variant}: keys differ from the direct compilation of the same circuit");
@@ -366,6 +389,6 @@ pub fn props() -> Vec<(Box<dyn PropDyn>, u32, u32)> {
 }
 
 pub fn describe(ctx: &Ctx) {
-    ctx.rule("cases: generated programs emphasising unused witnesses, allocation order != first-use order, repeated and distinct selector tuples, selectors 0/+-1 and entries of the built-in constant table, zero-valued public inputs, public inputs on the first and last row, sizes around 2^k-6, x labels x every capacity in minimal-8..=minimal+8 (non powers of two included). Oracle: direct and compressed routes succeed for exactly the same capacities with byte-identical Prover and Verifier; hand-built encodings of the same circuit (own MessagePack+deflate encoder: sparse witness labels, reversed polynomial table) compile to the same keys; 14 hostile description kinds (more constraints than capacity, out-of-range polynomial/scalar/witness/public-input indices, unsorted/duplicate public-input rows, trailing bytes after the MessagePack value / the deflate stream, 64 MiB deflate bomb, 2^32-1 declared entries, non-canonical scalar, zero witnesses, truncated payload) are refused with an error, without panic, with per-thread peak allocation <= 2x a legitimate maximal-capacity compile + 1 MiB. non-trivial = more than the fixed rows and capacity within 8 of the threshold; distinct by (layout digest, capacity, label)");
+    ctx.rule("cases: generated programs emphasising unused witnesses, allocation order != first-use order, repeated and distinct selector tuples, selectors 0/+-1 and entries of the built-in constant table, zero-valued public inputs, public inputs on the first and last row, sizes around 2^k-6, x labels x every capacity in minimal-8..=minimal+8 (non powers of two included). Oracle: direct and compressed routes succeed for exactly the same capacities with byte-identical Prover and Verifier; hand-built encodings of the same circuit (own MessagePack+deflate encoder: sparse witness labels, reversed polynomial table, a declared witness count of 2^20..2^63 over unchanged labels - allocation bounded like every other compile) compile to the same keys; 14 hostile description kinds (more constraints than capacity, out-of-range polynomial/scalar/witness/public-input indices, unsorted/duplicate public-input rows, trailing bytes after the MessagePack value / the deflate stream, 64 MiB deflate bomb, 2^32-1 declared entries, non-canonical scalar, zero witnesses, truncated payload) are refused with an error, without panic, with per-thread peak allocation <= 2x a legitimate maximal-capacity compile + 1 MiB. non-trivial = more than the fixed rows and capacity within 8 of the threshold; distinct by (layout digest, capacity, label)");
     ctx.assume("selectors equal to built-in table entries are drawn from the table the crate exposes through the verif hook (values only; their indices are never used)");
 }
